@@ -19,7 +19,7 @@ theorem Inv.with_uf (h : Inv G E sm gs) {uf : Links} (hok : UFOk sm.n uf)
     rw [hrep]; exact h.enemies
   · show ∀ a b, (a, b) ∈ E → rootFn uf a ≠ rootFn uf b
     rw [hrep]; exact h.apart
-  · show ∀ r ps, rootFn uf r = r → _
+  · show ∀ r ps, r < sm.n → rootFn uf r = r → _
     rw [hrep]; exact h.preds_noself
 
 /-- an enemy pair joins the classes of representatives `a` and `b` -/
